@@ -38,6 +38,7 @@ func init() {
 			{ID: "C15-R15", Title: "literals build their own kind", Floor: 3, Run: literalsBuildTheirOwnKind},
 			{ID: "C15-R16", Title: "hash keys take the value as it is", Floor: 5, Run: hashKeysTakeTheValueAsItIs},
 			{ID: "C15-R17", Title: "failures noted in sort callbacks stick (shared with C16-R25)", Floor: 1, Run: failuresNotedInCallbacksStick},
+			{ID: "C15-R18", Title: "membership accepts what iteration yields", Floor: 2, Run: membershipAcceptsWhatIterationYields},
 		},
 	})
 }
